@@ -1,6 +1,44 @@
-From Coq Require Import List.
-From PG Require Import Graph.MGraph C04.Dag C04.Model.
-(* placeholder until the proofs land *)
-Theorem c04_placeholder : forall d ord, cpdag_model d ord = cpdag_model d ord.
-Proof. reflexivity. Qed.
-Print Assumptions c04_placeholder.
+(* C04 — dag_to_cpdag returns the essential graph of the DAG's Markov equivalence class. *)
+From Coq Require Import List Arith.
+From PG Require Import Base.ListSet Graph.MGraph C04.Dag C04.Model C04.Spec C04.Proofs C04.Structure C04.Classify
+  C04.EssRefl C04.Bounded_4.
+Import ListNotations.
+
+(* unbounded: the labelling loop never runs out of fuel, for any graph and any node order *)
+Theorem cpdag_total : forall d ord, cpdag_model d ord <> None.
+Proof. exact cpdag_model_total. Qed.
+Print Assumptions cpdag_total.
+
+(* unbounded: nodes, skeleton, orientation of directed edges, directed/undirected disjoint *)
+Theorem cpdag_structure : forall d ord, is_dag d -> topo d ord ->
+  exists c r, cpdag_model d ord = Some (V d, c, r) /\
+    incl c (D d) /\ incl r (D d) /\ (forall e, In e c -> ~ In e r) /\
+    (forall a b, Padj (mkp (V d) c r) a b <-> Padj d a b).
+Proof. exact cpdag_structure_thm. Qed.
+Print Assumptions cpdag_structure.
+
+(* kernel computation: all labelled DAGs on <= 4 nodes, every topological order: directed edges = essential edges *)
+Theorem cpdag_essential_bounded_4 : forall n es ord, n <= 4 -> In es (dags n) ->
+  let d := mkd (seq 0 n) es in
+  topob d ord = true ->
+  exists c r, cpdag_model d ord = Some (seq 0 n, c, r) /\ forall a b, In (a, b) c <-> essential d a b.
+Proof. exact cpdag_essential_bounded_4_proof. Qed.
+Print Assumptions cpdag_essential_bounded_4.
+
+(* unbounded: the brute-force oracle used by the harness decides the definition *)
+Theorem essential_oracle_correct : forall d, is_dag d -> forall a b, essential_dec d a b = true <-> essential d a b.
+Proof. exact essential_dec_spec. Qed.
+Print Assumptions essential_oracle_correct.
+
+(* unbounded, about the spec: equal essential graphs iff Markov equivalent *)
+Theorem essential_classifies : forall d1 d2, is_dag d1 -> is_dag d2 -> (same_essential d1 d2 <-> meq d1 d2).
+Proof. exact essential_classifies_proof. Qed.
+Print Assumptions essential_classifies.
+
+(* hypotheses are satisfiable on a non-trivial input: 0->2<-1, 2->3 has compelled edges only; the chain 0->1->2 none *)
+Example cpdag_example :
+  cpdag_model (mkd [0;1;2;3] [(0,2);(1,2);(2,3)]) [0;1;2;3] = Some ([0;1;2;3], [(0,2);(1,2);(2,3)], []) /\
+  cpdag_model (mkd [0;1;2] [(0,1);(1,2)]) [0;1;2] = Some ([0;1;2], [], [(0,1);(1,2)]) /\
+  topob (mkd [0;1;2;3] [(0,2);(1,2);(2,3)]) [0;1;2;3] = true /\ length (dags 4) = 543.
+Proof. vm_compute. repeat split; reflexivity. Qed.
+Print Assumptions cpdag_example.
